@@ -13,6 +13,9 @@ pub fn close(a: f64, b: f64) -> bool {
     if a == b {
         return true;
     }
+    if a.is_infinite() || b.is_infinite() {
+        return false; // an infinite value is close only to itself (inf <= 1e-9 * inf would accept anything)
+    }
     (a - b).abs() <= 1e-9 * 1f64.max(a.abs()).max(b.abs())
 }
 
@@ -24,6 +27,9 @@ pub fn close_rel(a: f64, b: f64) -> bool {
     }
     if a == b {
         return true;
+    }
+    if a.is_infinite() || b.is_infinite() {
+        return false;
     }
     (a - b).abs() <= 1e-9 * a.abs().max(b.abs())
 }
